@@ -3,6 +3,7 @@ import RrModel.Spec.C07
 import RrModel.Spec.C08
 import RrModel.Spec.C10
 import RrModel.Spec.Tables
+import RrModel.SysCache
 /- stream: sysc — histories on a cache-enabled rule; the history oracles of C05, C07, C08, C10
    (DESIGN Appendix E: the reference cache) applied to what the implementation did. The model side
    of this stream is the set of function-level models (Freshness, Codec, Range, Conditional, …)
@@ -102,6 +103,9 @@ structure Fetch where
   via304 : Bool := false
   /-- … and that 304 carried a directive that forbids storing / sharing -/
   forbid304 : Bool := false
+  /-- the origin failed (status >= 400) and the client was served the STORED answer under its stale-if-error
+      allowance: this answer of the origin is not what the entry holds afterwards -/
+  servedStale : Bool := false
   deriving Repr
 
 def inGate (s : Nat) : Bool := s == 200 || Spec.redirectStatuses.contains s || (400 ≤ s && s ≤ 404)
@@ -154,7 +158,10 @@ def judge (force : Nat) (st : St) (method path : Bytes) (hs : List (Bytes × Byt
       -- "a 304 … updates its headers while keeping the body": the entry's Cache-Control is the 304's from now on
       let cEff : Origin := if is304 ∧ c.cc304 ≠ [] then
           { c with headers := c.headers.filter (fun kv => toLower kv.1 != b!"cache-control") ++ [(b!"Cache-Control", c.cc304)] } else c
+      let servedStale := c.status ≥ 400 && o.body ≠ [] && o.body != c.body &&
+        (st.all.filter (·.path == path)).any (fun s => s.body == o.body && ((Model.getCacheControlDirectives (hdrOf s.headers)).staleIfError).isSome)
       { st with fetches := st.fetches ++ [{ key := key, origin := cEff, time := st.now, reqAuth := reqAuth, reqOrigin := reqOrigin, method := method,
+                                            servedStale := servedStale,
                                             via304 := c.cond && etag0 ≠ [] && o.contactINM.any (· == etag0),
                                             forbid304 := c.cond && etag0 ≠ [] && o.contactINM.any (· == etag0) && c.cc304 ≠ [] &&
                                               Spec.C10.carriesAny (hdrOf [(b!"Cache-Control", c.cc304)]) }] }
@@ -166,6 +173,12 @@ def judge (force : Nat) (st : St) (method path : Bytes) (hs : List (Bytes × Byt
     { s with bad := s.bad ++ b, cls := s.cls ++ c, labels := s.labels ++ [l] }
   let st1 := if ranged ∧ cacheMethod ∧ !reqAuth ∧ o.contactRanges.any (· ≠ []) then
       add st1 ["bad:C15:range-forwarded-to-the-origin-on-a-cache-enabled-rule"] [] "range-forwarded" else st1
+  -- the performer's watchdog tripped: this ONE request contacted the origin 300 times (the handler re-enters
+  -- itself without bound; without the watchdog it never answers)
+  let st1 := if o.contacts ≥ 300 then
+      add st1 ["bad:C05:request-never-answered-(handler-re-enters-itself-without-bound)",
+               "bad:C13:failing-origin-request-never-answered-(handler-re-enters-itself-without-bound)",
+               "bad:C08:stale-if-error-allowance-not-honoured-(origin-contacted-without-bound)"] [] "unbounded-reentry" else st1
   if o.framing == "noresponse" then
     -- nothing came back within the client's deadline: the key is wedged (C13), the request unanswered (C05)
     add st1 ["bad:C13:request-got-no-response-the-key-is-wedged", "bad:C05:request-got-no-response"] [] "noresponse" else
@@ -254,7 +267,7 @@ def converse (force : Nat) (st : St) (method path : Bytes) (hs : List (Bytes × 
   let conditional := (valuesCI hs b!"if-none-match") ≠ [] || (valuesCI hs b!"range") ≠ []
   let reqOrigin := (valuesCI hs b!"origin") ≠ []
   if o.contacts == 0 ∨ conditional ∨ reqOrigin then [] else
-  match (st.fetches.filter (·.key == key)).getLast? with
+  match (st.fetches.filter (fun f => f.key == key && !f.servedStale)).getLast? with
   | none => []
   | some f =>
     let stored := Spec.C08.storedOf (hdrOf (if 400 ≤ f.origin.status ∧ f.origin.status ≤ 404 then [(b!"Cache-Control", Spec.cacheable4xxCacheControl)] else f.origin.headers)) f.time 0
@@ -263,6 +276,56 @@ def converse (force : Nat) (st : St) (method path : Bytes) (hs : List (Bytes × 
       Spec.C07.goodHeader (hdrOf f.origin.headers) &&
       !Spec.C10.inClass_C10_b (hdrOf f.origin.headers)
     if storable ∧ Spec.C08.isFresh stored st.now force then ["bad:C08:origin-contacted-although-the-entry-is-fresh"] else []
+
+/-! ### the model side: `Model.SysCache.run` on the same history, rendered in the implementation's token syntax -/
+
+def toModelOp : Op → Model.SysCache.Op
+  | .req m p hs => .req { method := m, path := p, header := Model.SysCache.addAll hs }
+  | .abort m p hs => .req { method := m, path := p, header := Model.SysCache.addAll hs, abort := true }
+  | .tick dt => .tick dt
+  | .origin o => .setOrigin o.path { status := o.status, headers := o.headers, body := o.body, chunked := o.chunked,
+                                     readErrAt := o.readErrAt, cond := o.cond, cl0 := o.cl0, cc304 := o.cc304 }
+
+/-- stable insertion by key (Go: `sort.SliceStable` on the canonical name) -/
+def insertPair (x : Bytes × Bytes) : List (Bytes × Bytes) → List (Bytes × Bytes)
+  | [] => [x]
+  | y :: t => if bytesLt x.1 y.1 then x :: y :: t else y :: insertPair x t
+
+def sortPairs (l : List (Bytes × Bytes)) : List (Bytes × Bytes) := l.foldl (fun acc x => insertPair x acc) []
+
+/-- the header map as the harness prints it: one pair per value, canonical names, sorted by name,
+    `Date` and `Connection` dropped -/
+def pairsOf (h : Header) : List (Bytes × Bytes) :=
+  sortPairs (((Model.mapKeys h).flatMap fun k => (Header.vals h k).map fun v => (canon k, v)).filter
+    fun kv => toLower kv.1 != b!"date" && toLower kv.1 != b!"connection")
+
+/-- header lines that net/http's server decides by itself when the handler left them open (TRUSTED):
+    framing (`Content-Length` when the handler set none, `Transfer-Encoding`) and the sniffed
+    `Content-Type` when the handler set none.  They are taken over from the implementation's
+    observation; every line the handler itself set is compared. -/
+def reconcile (model impl : List (Bytes × Bytes)) : List (Bytes × Bytes) :=
+  let has (n : Bytes) := model.any fun kv => toLower kv.1 == n
+  let fromImpl := impl.filter fun kv =>
+    (toLower kv.1 == b!"transfer-encoding") ||
+    (toLower kv.1 == b!"content-length" && !has b!"content-length") ||
+    (toLower kv.1 == b!"content-type" && !has b!"content-type")
+  sortPairs (model ++ fromImpl)
+
+def renderObs (isAbort : Bool) (m : Model.SysCache.Obs) (impl : Obs) : List String :=
+  let cs := m.contacts.flatMap fun c => [toHex' c.inm, toHex' c.ims, toHex' c.range]
+  if isAbort then ["0", "aborted", "x", "0", toString m.contacts.length] ++ cs
+  else
+    let hs := reconcile (pairsOf m.header) impl.headers
+    [toString m.status, (if m.complete then "complete" else "cutshort"), toHex' m.body, toString hs.length] ++
+      hs.flatMap (fun kv => [toHex' kv.1, toHex' kv.2]) ++ [toString m.contacts.length] ++ cs
+where toHex' (b : Bytes) : String := toHex b
+
+def modelTokens (force : Nat) (ops : List Op) (obs : List Obs) : List String × List String :=
+  let cfg : Model.SysCache.Config := { force := force }
+  let ms := Model.SysCache.run cfg (Model.SysCache.State.init 1700000000) (ops.map toModelOp)
+  let aborts := ops.filterMap fun o => match o with | .req .. => some false | .abort .. => some true | _ => none
+  let toks := ((ms.zip obs).zip aborts).flatMap fun x => renderObs x.2 x.1.1 x.1.2
+  (toks, ms.map (·.label))
 
 def hSysC : Handler := fun impl => do
   let force ← pNat
@@ -298,9 +361,10 @@ def hSysC : Handler := fun impl => do
           (st', rest)) (({} : St), obs)
   let oracle := if st.bad.isEmpty then "ok" else ",".intercalate st.bad.eraseDups
   let cls := if st.cls.isEmpty then "-" else ",".intercalate st.cls.eraseDups
-  let label := "+".intercalate (st.labels.eraseDups.take 4)
-  return { model := " ".intercalate impl, oracle := oracle, cls := cls, label := if label = "" then "-" else label }
+  let (mtoks, mlabels) := modelTokens force ops obs
+  let label := "+".intercalate ((mlabels ++ st.labels).eraseDups.take 6)
+  return { model := " ".intercalate mtoks, oracle := oracle, cls := cls, label := if label = "" then "-" else label }
 
-def handlers : List (String × Handler) := [ ("sysc", hSysC), ("kf.C05-a", hSysC), ("kf.C09-e.sysc", hSysC), ("kf.C09-b.sysc", hSysC) ]
+def handlers : List (String × Handler) := [ ("sysc", hSysC), ("kf.C08-c", hSysC), ("kf.C05-a", hSysC), ("kf.C09-e.sysc", hSysC), ("kf.C09-b.sysc", hSysC) ]
 
 end H.SysC
